@@ -696,7 +696,7 @@ func vBezierBoxes() (n int, fails []string) {
 // controls entirely: radii (r, fr) that are zero, negative or inverted, coinciding or unordered stop offsets,
 // vectors of zero or enormous length, with the repeat and reflect spread methods. vSVGGradients parses and
 // draws a rectangle filled with every radial gradient over 5 outer radii x 5 focal radii and every linear
-// gradient over 6 x 6 end points, 3 spread methods, 2 unit systems and 6 stop lists: none may panic, exhaust
+// gradient over 7 x 7 end points (up to 3e9, beyond the float32 integer range), 3 spread methods, 2 unit systems and 6 stop lists: none may panic, exhaust
 // the memory or run for ever (the whole enumeration is under the 60 s watchdog of the harness).
 func vSVGGradients() (n int, fails []string) {
 	stops := []string{
@@ -728,8 +728,8 @@ func vSVGGradients() (n int, fails []string) {
 						try(def, def)
 					}
 				}
-				for _, x1 := range []string{"0", "0.0000001", "0.5", "1", "10000000", "-1"} {
-					for _, x2 := range []string{"0", "0.0000001", "0.5", "1", "10000000", "-1"} {
+				for _, x1 := range []string{"0", "0.0000001", "0.5", "1", "10000000", "-1", "3000000000"} {
+					for _, x2 := range []string{"0", "0.0000001", "0.5", "1", "10000000", "-1", "3000000000"} {
 						def := fmt.Sprintf(`<linearGradient id="g" spreadMethod="%s" gradientUnits="%s" x1="%s" y1="0" x2="%s" y2="0.0000001">%s</linearGradient>`, spread, units, x1, x2, st)
 						try(def, def)
 					}
@@ -740,5 +740,5 @@ func vSVGGradients() (n int, fails []string) {
 	return n, fails
 }
 
-//@ bounded vSVGGradients svg.Parse and Draw of a rectangle filled with every radial gradient over 5 x 5 radii (zero, tiny, negative, inverted) and every linear gradient over 6 x 6 end points, 3 spread methods, 2 unit systems, 6 stop lists (2 196 gradients): returns without panicking, exhausting memory or hanging
+//@ bounded vSVGGradients svg.Parse and Draw of a rectangle filled with every radial gradient over 5 x 5 radii (zero, tiny, negative, inverted) and every linear gradient over 7 x 7 end points, 3 spread methods, 2 unit systems, 6 stop lists (2 664 gradients): returns without panicking, exhausting memory or hanging
 //@   props C01 C18
